@@ -3,6 +3,7 @@ CONSTANTS
   Clients <- MC2Clients
   Reqs <- MC2Reqs
   Bg = "bg"
+  Pool <- NoPool
   Handoff = TRUE
 INVARIANT RecvMutex
 INVARIANT CondMutex
